@@ -69,6 +69,10 @@ func inodeOf(info os.FileInfo) uint64 {
 	return 0
 }
 
+// WellFormed is a complete Winlink message (decoy files come both as garbage and as well-formed
+// messages: code that treats the two differently must leave both alone).
+const WellFormed = "Mid: DECOYMSG0001\r\nBody: 6\r\nContent-Transfer-Encoding: 8bit\r\nContent-Type: text/plain; charset=ISO-8859-1\r\nDate: 2020/01/01 00:00\r\nFrom: N0DECOY\r\nMbo: N0DECOY\r\nSubject: decoy\r\nTo: N0NONE\r\nType: Private\r\n\r\ndecoy\n\r\n"
+
 // Sandbox is <root>/1/2/3/4/5/6/mbox with decoy files and directories at every level.
 type Sandbox struct{ Root, MBox string }
 
@@ -81,6 +85,7 @@ func New(base string) (*Sandbox, error) {
 	for _, d := range []string{"1", "2", "3", "4", "5", "6"} {
 		os.WriteFile(filepath.Join(p, "decoy.txt"), []byte("decoy at "+d), 0o644)
 		os.WriteFile(filepath.Join(p, "a.b2f"), []byte("decoy message file"), 0o644)
+		os.WriteFile(filepath.Join(p, "aa.b2f"), []byte(WellFormed), 0o644)
 		os.MkdirAll(filepath.Join(p, "outside"), 0o755)
 		os.WriteFile(filepath.Join(p, "outside", "target.b2f"), []byte("target"), 0o644)
 		os.MkdirAll(filepath.Join(p, "a"), 0o755)
@@ -88,6 +93,8 @@ func New(base string) (*Sandbox, error) {
 		os.MkdirAll(p, 0o755)
 	}
 	os.WriteFile(filepath.Join(p, "decoy.txt"), []byte("sibling decoy"), 0o644)
+	os.WriteFile(filepath.Join(p, "a.b2f"), []byte("decoy message file"), 0o644)
+	os.WriteFile(filepath.Join(p, "aa.b2f"), []byte(WellFormed), 0o644)
 	os.MkdirAll(filepath.Join(p, "outside"), 0o755)
 	os.WriteFile(filepath.Join(p, "outside", "target.b2f"), []byte("target"), 0o644)
 	os.MkdirAll(filepath.Join(p, "mboxbackup"), 0o755)
